@@ -590,35 +590,147 @@ def _load_cases(path):
     return [json.loads(l) for l in open(path) if l.strip()]
 
 
-def _oracle(ctx, rec, tree, known_ids, source):
-    """the property's own predicate on what the implementation did; returns the reader finding (or None)"""
+def _judge(rec, tree, known_ids):
+    """the property's own predicate on what the implementation did with one document.
+    Returns (violations, known_hits): violations = list of dicts (what, ...), known_hits = list of finding ids"""
     doc = rec["doc"]
+    viol, hits = [], []
     if not rec["wf"]:
-        return
-    tag = {"source": source, "case": rec["i"], "document": doc}
+        return viol, hits
     if rec.get("save") != "ok":
-        ctx.violations.append(dict(tag, what="save failed on a well-formed document", outcome=rec.get("save"), msg=rec.get("msg")))
-        return
+        viol.append(dict(what="save failed on a well-formed document", outcome=rec.get("save"), msg=rec.get("msg")))
+        return viol, hits
     # sentence 1: load(save d) == d
     if rec.get("load") != "same":
         if rec["cls_trim"] and KNOWN_TRIM in known_ids:
-            ctx.known_hits[KNOWN_TRIM] = ctx.known_hits.get(KNOWN_TRIM, 0) + 1
+            hits.append(KNOWN_TRIM)
         else:
-            ctx.violations.append(dict(tag, what="load(save d) differs from d", outcome=rec.get("load"),
-                                       loaded=rec.get("loaded"), msg=rec.get("msg"),
-                                       in_class_lib_edge_whitespace=rec["cls_trim"],
-                                       demand="load(save d) == d for every well-formed document outside the known classes"))
+            viol.append(dict(what="load(save d) differs from d", outcome=rec.get("load"), loaded=rec.get("loaded"),
+                             msg=rec.get("msg"), in_class_lib_edge_whitespace=rec["cls_trim"],
+                             demand="load(save d) == d for every well-formed document outside the known classes"))
     # sentence 2: an independent reader finds the same values under the specification's names
     why = "the file is not well-formed XML" if tree is None else tree_matches_spec(tree, spec_tree(doc))
     if why:
         if rec["cls_forbidden"] and KNOWN_FORB in known_ids:
-            ctx.known_hits[KNOWN_FORB] = ctx.known_hits.get(KNOWN_FORB, 0) + 1
+            hits.append(KNOWN_FORB)
         elif rec["cls_norm"] and not rec["cls_forbidden"] and KNOWN_NORM in known_ids:
-            ctx.known_hits[KNOWN_NORM] = ctx.known_hits.get(KNOWN_NORM, 0) + 1
+            hits.append(KNOWN_NORM)
         else:
-            ctx.violations.append(dict(tag, what="independent reader does not find the document's values under the "
-                                                 "specification's names", detail=why,
-                                       demand="expat tree of the saved file == specification writer's tree (attributes as sets)"))
+            viol.append(dict(what="independent reader does not find the document's values under the specification's names",
+                             detail=why, demand="expat tree of the saved file == specification writer's tree (attributes as sets)"))
+    return viol, hits
+
+
+def _oracle(ctx, rec, tree, known_ids, source):
+    viol, hits = _judge(rec, tree, known_ids)
+    for h in hits:
+        ctx.known_hits[h] = ctx.known_hits.get(h, 0) + 1
+    for v in viol:
+        ctx.violations.append(dict({"source": source, "case": rec["i"], "document": rec["doc"]}, **v))
+
+
+def _simpler(doc):
+    """documents one step simpler than doc (still well-formed if doc is)"""
+    import copy
+    out = []
+
+    def emit(f):
+        d = copy.deepcopy(doc)
+        if f(d) is not False:
+            out.append(d)
+
+    for key, keep in (("axes", 1), ("sources", 1), ("instances", 0), ("rules", 0), ("lib", 0)):
+        for i in range(len(doc[key])):
+            if len(doc[key]) > keep:
+                emit(lambda d, key=key, i=i: d[key].pop(i))
+    if not doc["rules"] and doc["processing"] == "last":
+        pass
+    for ai, a in enumerate(doc["axes"]):
+        for k in ("minimum", "maximum", "values", "map"):
+            if a[k] is not None:
+                emit(lambda d, ai=ai, k=k: d["axes"][ai].__setitem__(k, None))
+        if a["hidden"]:
+            emit(lambda d, ai=ai: d["axes"][ai].__setitem__("hidden", False))
+        for k in ("values", "map"):
+            if a[k] and len(a[k]) > 1:
+                emit(lambda d, ai=ai, k=k: d["axes"][ai][k].pop())
+    for ri, r in enumerate(doc["rules"]):
+        if r["name"] is not None:
+            emit(lambda d, ri=ri: d["rules"][ri].__setitem__("name", None))
+        for k in ("condsets", "subs"):
+            if len(r[k]) > 1:
+                emit(lambda d, ri=ri, k=k: d["rules"][ri][k].pop())
+        for ci, cs in enumerate(r["condsets"]):
+            if cs:
+                emit(lambda d, ri=ri, ci=ci: d["rules"][ri]["condsets"][ci].pop())
+    for key, opts in (("sources", ("familyname", "stylename", "name", "layer")),
+                      ("instances", ("familyname", "stylename", "name", "filename", "postscriptfontname",
+                                     "stylemapfamilyname", "stylemapstylename"))):
+        for si, x in enumerate(doc[key]):
+            for k in opts:
+                if x[k] is not None:
+                    emit(lambda d, key=key, si=si, k=k: d[key][si].__setitem__(k, None))
+            if len(x["location"]) > 1:
+                emit(lambda d, key=key, si=si: d[key][si]["location"].pop())
+            for li, dim in enumerate(x["location"]):
+                for k in ("uservalue", "xvalue", "yvalue"):
+                    if dim[k] is not None:
+                        emit(lambda d, key=key, si=si, li=li, k=k: d[key][si]["location"][li].__setitem__(k, None))
+            if key == "instances":
+                for i in range(len(x["lib"])):
+                    emit(lambda d, si=si, i=i: d["instances"][si]["lib"].pop(i))
+
+    def simpler_pv(path_get, v):
+        t, val = v
+        if t in ("a", "m") and val:
+            for i in range(len(val)):
+                emit(lambda d, i=i: path_get(d)[1].pop(i))
+        if t == "a":
+            for i, e in enumerate(val):
+                simpler_pv(lambda d, i=i: path_get(d)[1][i], e)
+        if t == "m":
+            for i, (k, e) in enumerate(val):
+                simpler_pv(lambda d, i=i: path_get(d)[1][i][1], e)
+    for i, (k, v) in enumerate(doc["lib"]):
+        simpler_pv(lambda d, i=i: d["lib"][i][1], v)
+    for si, x in enumerate(doc["instances"]):
+        for i, (k, v) in enumerate(x["lib"]):
+            simpler_pv(lambda d, si=si, i=i: d["instances"][si]["lib"][i][1], v)
+    return out
+
+
+def _shrink(ctx, viol, known_ids, rounds=40):
+    """greedy one-step simplification of a violating document, re-running the implementation each round"""
+    from driver import sh
+    doc, what = viol["document"], viol["what"]
+    wd = os.path.join(ctx.scratch, "shrink")
+    for _ in range(rounds):
+        cands = _simpler(doc)
+        if not cands:
+            break
+        if os.path.isdir(wd):
+            import shutil
+            shutil.rmtree(wd)
+        os.makedirs(wd)
+        open(os.path.join(wd, "in.jsonl"), "w").write("".join(json.dumps(c) + "\n" for c in cands))
+        rc, o = sh([ctx.harness, "c18", "--replay", os.path.join(wd, "in.jsonl"), "--out", wd], timeout=600)
+        if rc != 0:
+            break
+        found = None
+        for rec in _load_cases(os.path.join(wd, "cases.jsonl")):
+            tree = None
+            if rec.get("save") == "ok":
+                tree = read_xml(open(os.path.join(wd, "f%d.xml" % rec["i"]), "rb").read())
+            vs, _ = _judge(rec, tree, known_ids)
+            hit = [v for v in vs if v["what"] == what]
+            if hit:
+                found = dict({"source": viol["source"].replace(" (minimised)", "") + " (minimised)", "case": viol["case"], "document": rec["doc"]}, **hit[0])
+                break
+        if found is None:
+            break
+        doc = found["document"]
+        viol = found
+    return viol
 
 
 def run(ctx, known, built):
@@ -777,8 +889,19 @@ def run(ctx, known, built):
                                           "edit": desc, "tree": pt, "load": loaded[idx[i]]})
     ctx.obligation("correspondence:C18 (%d shards)" % len(files), ok_shards == len(files) and not ctx.disagreements,
                    "model and implementation differ")
-    # de-duplicate violations (keep the smallest documents first)
+    # smallest documents first; the first violation of each kind is minimised
     ctx.violations.sort(key=lambda v: len(json.dumps(v.get("document"))))
+    if ctx.violations:
+        seen = set()
+        front = []
+        for v in ctx.violations:
+            if v["what"] not in seen and len(seen) < 2:
+                seen.add(v["what"])
+                try:
+                    front.append(_shrink(ctx, v, known_ids))
+                except Exception as ex:      # the shrinker must never hide a violation
+                    ctx.note("shrink failed: %r" % (ex,))
+        ctx.violations[:0] = front
     ctx.cov.update({
         "evaluations": stats["cases"] + dstats["perturbed"],
         "distinct_nontrivial": stats["wf"] + dstats["perturbed"],
